@@ -107,8 +107,7 @@ func (c *c05Case) scenario() *Scenario {
 
 const c05Slack = 1500
 
-func c05Check(c c05Case) kit.Outcome {
-	var out kit.Outcome
+func c05Check(c c05Case) (out kit.Outcome) {
 	sc := c.scenario()
 	run := runHost(sc)
 	if run.Infra != "" {
@@ -117,6 +116,7 @@ func c05Check(c c05Case) kit.Outcome {
 	}
 	tr := run.Trace
 	out.Artifacts = run.diag()
+	defer attributeStale(&out, tr, "C05")
 	out.Sample = c
 	out.Label("family:" + c.Family)
 	if c.Family == "stall" {
